@@ -245,6 +245,30 @@ fn matcha_alternation(q: PTerm) -> PGoal {
     })
 }
 
+fn matcha_several_terms(q: PTerm) -> PGoal {
+    // the head of an arm is the unification of ALL matched terms with the pattern
+    proto_vulcan!(|a, b| {
+        a == 1,
+        b == 2,
+        matcha [a, b] {
+            [1, 1] => q == 11,
+            [1, _] => q == 12,
+            _ => q == 0,
+        }
+    })
+}
+
+fn matchu_repeated_variable(q: PTerm) -> PGoal {
+    proto_vulcan!(|a, b| {
+        a == 3,
+        b == 4,
+        matchu [a, b] {
+            [x, x] => q == x,
+            [x, y] => member(q, [x, y]),
+        }
+    })
+}
+
 fn conda_bare_true(q: PTerm) -> PGoal {
     // a bare `true` as the default clause
     proto_vulcan!(|x| { x == 2, conda { [x == 1, q == 5], true }, q == 7 })
@@ -532,6 +556,8 @@ pub fn corpus() -> Vec<Entry> {
         e("closure-relation", "C06", false, closure_relation, &[0, 1, 2, 3]),
         e("closure-path-call", "C06", false, closure_path_call, &[0, 1, 2, 3]),
         e("closure-macro-path-call", "C06", false, closure_macro_path_call, &[0, 4, 5]),
+        e("matcha-several-terms", "C08", false, matcha_several_terms, &[12]),
+        e("matchu-repeated-variable", "C08", false, matchu_repeated_variable, &[3, 4]),
         e("conda-bare-true-clauses", "C08", false, conda_bare_true, &[7]),
         e("condu-leading-true-clause", "C08", false, condu_leading_true, &[1]),
         e("fresh-five-goals", "C06", false, fresh_five_goals, &[1, 2, 3, 4]),
